@@ -548,13 +548,23 @@ func GRPCStreamMatrix() *m.Design {
 	relay := &m.Method{Name: "relay", Streaming: "bidirectional", GRPC: &m.GRPCEndpoint{}, StreamingPayload: m.UserRef("Event"), Result: m.UserRef("Sample")}
 	echo := &m.Method{Name: "echo", Streaming: "bidirectional", GRPC: &m.GRPCEndpoint{}, StreamingPayload: prim(m.String), Result: prim(m.String)}
 	ticks := &m.Method{Name: "ticks", Streaming: "result", GRPC: &m.GRPCEndpoint{}, Result: prim(m.Int64)}
+	// streamed payloads with validations next to a result type with views (the
+	// server-side Recv of these methods must still validate what it receives)
+	reset(0)
+	// (every required attribute is in every view: a required attribute outside the rendered view crashes the generated gRPC server, open finding)
+	gitem := &m.UserType{Name: "Item", Var: "gitem", Result: true, Identifier: "application/vnd.grpcstreams.item",
+		Attr:  obj(fld("id", prim(m.Int64), true), fld("title", prim(m.String), false), fld("notes", prim(m.String), false)),
+		Views: []*m.View{{Name: "default", Fields: []m.ViewField{{Name: "id"}, {Name: "title"}, {Name: "notes"}}}, {Name: "tiny", Fields: []m.ViewField{{Name: "id"}}}}}
+	review := &m.Method{Name: "review", Streaming: "bidirectional", GRPC: &m.GRPCEndpoint{}, StreamingPayload: m.UserRef("Event"), Result: m.UserRef("Item")}
+	tally := &m.Method{Name: "tally", Streaming: "payload", GRPC: &m.GRPCEndpoint{}, StreamingPayload: m.UserRef("Event"), Result: m.UserRef("Item")}
+	items := &m.Method{Name: "items", Streaming: "result", GRPC: &m.GRPCEndpoint{}, Result: m.UserRef("Item")}
 	reset(0)
 	unary := &m.Method{Name: "unary", GRPC: &m.GRPCEndpoint{}, Payload: obj(fld("e", m.UserRef("Event"), true))}
 	reset(0)
 	unary.Result = obj(fld("s", m.UserRef("Sample"), false))
 	health := &m.Service{Name: "health", HasHTTP: true, Methods: []*m.Method{{Name: "ping", HTTP: &m.HTTPEndpoint{Routes: []m.Route{{Verb: "GET", Path: "/ping"}}}}}}
 	return &m.Design{API: m.API{Name: "grpcstreams", Title: "gRPC stream matrix", Server: true},
-		Types:    []*m.UserType{origin, event, sample},
-		Services: []*m.Service{{Name: "grpcstreams", HasGRPC: true, Methods: []*m.Method{watch, collect, relay, echo, ticks, unary}}, health},
+		Types:    []*m.UserType{origin, event, sample, gitem},
+		Services: []*m.Service{{Name: "grpcstreams", HasGRPC: true, Methods: []*m.Method{watch, collect, relay, echo, ticks, review, tally, items, unary}}, health},
 		Features: []string{"fixed-design:grpc-stream-matrix", "grpc-server-streaming", "grpc-client-streaming", "grpc-bidirectional-streaming", "request-metadata"}}
 }
